@@ -551,6 +551,22 @@ def r_tables(ctx, view, want=("R-GROW", "R-TORN"), only=None):
         bad_ret = explore_tca(view, f, marks, init, step, g1_obs, rp, miss_edges)
         torn = [b for b in bad_ret if b[0] == "torn"]
         grow = [b for b in bad_ret if b[0] == "return"]
+        if "R-TORN" in want and published:
+            # the `Store::from` idiom (the element count kept in a local counter, written to `size` at the end) is fine on a store
+            # nobody else can see; on a published store every user call inside the loop sees - and a panic there leaves -
+            # a `size` that is behind the tables
+            cl = counter_locals(view, f)
+            if cl:
+                for lp in f.cfg.loops:
+                    body = set(lp["body"])
+                    grows = [b for b in body for tg in marks.get(b, []) if tg[0] == "grow" and tg[1] in ("heap", "qp", "map")]
+                    users = [(b, tg[1]) for b in body for tg in marks.get(b, []) if tg[0] == "mruc"]
+                    if grows and users:
+                        ctx.ob("R-TORN", key + ":size-in-a-local-counter", False, f.loc(users[0][1].get("span")),
+                               "the tables of a published store grow inside this loop while the element count is kept in a local counter "
+                               "(written to `size` only afterwards): user code that runs in the loop (%s) sees, and a panic in it leaves, "
+                               "a size that is behind the tables" % (users[0][1].get("name") or users[0][1].get("key")))
+                        break
         if "R-TORN" in want:
             ctx.ob("R-TORN", key, not torn, f.loc(),
                    ("%s store; %d raw table writes; user code never runs inside a table transaction" % ("published" if published else "unpublished (constructor-owned)", n_tw))
